@@ -310,14 +310,19 @@ func main() {
 		"every style expression f(g(h(leaf))) and f(g(leaf)+h(leaf')) over 17 style functions (incl. identity) and 6 leaves each (empty, letter, words, lines, bare line break, line starting with a combining mark), followed by every sequence of layout "+
 			"(end to end: a page with styled %, backslash and brace characters shown by the built program on a pseudo-terminal, every frame judged for complete SGR sequences and neutrality at line ends) "+
 			"operations (12 ops: Wrap/DumbWrap/Pad at 1,3,80, two Indents, Snip) of length <= 1 (quick) / <= 2 (thorough); the whole enumeration is repeated (with one layout step less) under a second palette whose colour triples end in 1, 3, 4 and 9; call-history independence: every ordered pair of calls over 28 operations x 6 arguments compared with the second call in isolation; SGR machine checks per-letter attributes, "+
-			"neutrality at every line end and end of string, and that layout keeps attributes; distinct_nontrivial counts distinct expressions with at least one letter and one non-identity style")
+			"neutrality at every line end and end of string, and that layout keeps attributes; a size phase: lines of 60..3000 styled cells (1 kB..70 kB per line) through vertical centring at 11 heights, last-line replacement and the layout operations at a width that leaves them whole - every output line must be one of the input lines, complete and neutral; distinct_nontrivial counts distinct expressions with at least one letter and one non-identity style")
 	debug.SetGCPercent(800)
 	if *ev.FlagReplay != "" {
 		var d struct {
 			Expr   expr     `json:"expr"`
 			Layout []string `json:"layout"`
 		}
-		if key := ev.LoadReplay(*ev.FlagReplay, &d); strings.HasPrefix(key, "e2e:") {
+		if key := ev.LoadReplay(*ev.FlagReplay, &d); strings.HasPrefix(key, "long-lines:") {
+			r.Eval(longLines(r))
+			r.Distinct("a")
+			r.Distinct("b")
+			r.Finish()
+		} else if strings.HasPrefix(key, "e2e:") {
 			e2ePart(r)
 			r.Eval(1)
 			r.Distinct("a")
@@ -423,6 +428,7 @@ func main() {
 		"decoration cells that style functions add themselves (quote bar, bullet, link number, header glyphs, indentation, padding, ellipsis) are judged for neutrality only, not for their attributes",
 		"where two colours of the same kind are nested the innermost one is expected (it is applied last)",
 		"SGR machine models set/reset of the attributes servitor uses; it is not a terminal emulator")
+	r.Eval(longLines(r))
 	e2ePart(r)
 	r.Finish()
 }
